@@ -763,13 +763,17 @@ void reb_integrator_bs_part2(struct reb_simulation* r){
         if (ri_bs->nbody_ode->length != nbody_length){
             reb_ode_free(ri_bs->nbody_ode);
             ri_bs->nbody_ode = NULL;
+            ri_bs->first_or_last_step = 1; // Particle number changed. Treat next step as a first step.
         }
     }
     if (ri_bs->nbody_ode == NULL){ 
+        // The nbody ode is an internal work array. Creating it must not change the state of the integrator:
+        // first_or_last_step is 1 after a reset and keeps its saved value after restoring from a binary file.
+        const int first_or_last_step = ri_bs->first_or_last_step;
         ri_bs->nbody_ode = reb_ode_create(r, nbody_length);
         ri_bs->nbody_ode->derivatives = nbody_derivatives;
         ri_bs->nbody_ode->needs_nbody = 0; // No need to update unless there's another ode
-        ri_bs->first_or_last_step = 1;
+        ri_bs->first_or_last_step = first_or_last_step;
     }
     
     for (int s=0; s < r->N_odes; s++){
